@@ -1,7 +1,7 @@
 """Template rules over the op catalogue (C01/C02 WRAP, PAIR, BIND, SAVED, ACC, COVER; C03 SUM-OVER-PATHS/MIXED;
 C07 PROP/ATTACH; C17 NOHISTORY(ii)).  Every rule is phrased over the extracted slots (def-use facts), not text."""
 import ast
-from .core import norm, dotted, names_in, body_walk
+from .core import norm, dotted, names_in, body_walk, inline_expr, single_bindings
 from .report import Incomplete
 from . import opcat
 
@@ -51,7 +51,7 @@ def bind_call(call, callee):
 def operand_of(expr, op, func):
     """which child operand an argument expression denotes: x.data / x.data.T / x.shape / local alias of those.
     returns (child name, accessor) or None"""
-    e = expr
+    e = inline_expr(func.node, expr) if isinstance(expr, ast.Name) and expr.id in single_bindings(func.node) and not isinstance(single_bindings(func.node)[expr.id], ast.IfExp) else expr
     acc = []
     while isinstance(e, ast.Attribute):
         acc.append(e.attr)
@@ -321,8 +321,10 @@ def _same_binding(func, op, farg, barg):
     between the two uses (closure variables captured from the wrapper: parameters / single-assignment locals /
     a normalisation `p += c` that precedes the forward call)"""
     if norm(farg) != norm(barg):
-        # tolerated: local alias recomputed identically inside the closure (bias_data = bias.data if ... )
-        return False
+        # a temporary on one side, the expression itself on the other: compare after inlining single-assignment locals of the wrapper
+        b = single_bindings(func.node)
+        if norm(inline_expr(func.node, farg, bindings=b)) != norm(inline_expr(func.node, barg, bindings=b)):
+            return False
     for name in names_in(barg):
         asg = opcat._assignments(func.node, name)
         for stmt, val, kind in asg:
